@@ -134,9 +134,36 @@ CHECKS = {
                 "Open known finding: a serde copy re-uses the identities of the original.",
         "technique": "Coq proof (induction over schedules; clone refinement on the identity skeleton) + differential correspondence incl. threads",
     },
+    "C01": {
+        "text": "A record-level specification in Coq (Spec/PdbSpec.v: what MODEL / ATOM / HETATM / ANISOU / TER / HEADER / REMARK / CRYST1 / SCALE / ORIGX / "
+                "MTRIX records state: first-appearance partition into chains, residues, conformers via the proved grouping theory, binary64 value of the "
+                "decimal text, element inference, tensors, serial wrap, occupancy split) and a faithful Gallina model of the whole reader (lexer of every "
+                "record type, record loop, post passes, gate). Proved: one chain per id in first-appearance order for every record list, the occupancy "
+                "split adds up, wrapped serials continue upward, a defaulted field always leaves a diagnostic that rejects at every level, accepted "
+                "results carry no failing diagnostic. The implementation is compared with both the reader model (whole outcome incl. diagnostics) and the "
+                "specification on grammar-directed texts with arbitrary justification, plus single-field corruptions.",
+        "design_ref": "DESIGN.md section 6 C01",
+        "note": "Partial: the refinement read_pdb (render recs) = denote recs is checked by correspondence, not proved; DBREF/SEQADV/MODRES/SSBOND are "
+                "covered by the reader-model correspondence only; SEQRES validation is not modelled. Trusted: Coq kernel, T2 table translators, the "
+                "binary64 parsing model (cross-validated against rustc), extraction, harness.",
+        "technique": "Coq specification + reader model with proved structural lemmas; differential correspondence (implementation vs model vs specification)",
+    },
+    "C05": {
+        "text": "The panic-capable constructs (index, unwrap, expect, panic!, assert!) of the PDB reader and of the code it calls are regenerated "
+                "from the source on every run (T7) and proved equal to a reviewed table in which every site has its guard stated; the reader model is "
+                "a total function in which every former panic is a diagnostic; proved: every field parser either parses or leaves an "
+                "InvalidatingError, which fails every level; the reader always classifies (accepted with only passing diagnostics, or rejected "
+                "with a failing one). The compiled code is explored on prefixes, single-column mutations with ASCII / multi-byte / invalid UTF-8, "
+                "multi-fault file mutations, all options and levels, in two build profiles; diagnostics are rendered and their quoted lines compared "
+                "with the input.",
+        "design_ref": "DESIGN.md section 6 C05",
+        "note": "Absence of panics and termination of the compiled code are a for-all-inputs claim that the model cannot exhibit: they are explored "
+                "(about 50k inputs per quick run), not proved; the T7 table ties the review to the source. Trusted: Coq kernel, T7, extraction, harness.",
+        "technique": "Coq proof over a translator-regenerated panic-site inventory + totality lemmas of the reader model; fault-enumeration correspondence",
+    },
 }
 
 NOT_APPLICABLE = [
     {"property_id": p, "reason": PENDING}
-    for p in ["C01", "C02", "C03", "C04", "C05", "C06", "C15"]
+    for p in ["C02", "C03", "C04", "C06", "C15"]
 ]
